@@ -459,6 +459,11 @@ func runInitFlowSequence(c *Ctx, s int) []string {
 			f.Clear()
 			for _, x := range gs {
 				x.m.cancelled, x.m.err, x.m.arrived = false, nil, 0
+				if x.name == "agentReady" {
+					// a cleared init flow is as new: the number of agents of the next initialisation is not
+					// known yet (defect D17: the count of the previous initialisation used to survive)
+					x.m.count = maxU16
+				}
 			}
 		case k == 7 && g.name == "runtimeReady":
 			// expired deadline: returns the hook timeout and cancels the whole flow with it — unless the gate is already satisfied/cancelled
